@@ -1,0 +1,12 @@
+//go:build verif
+
+// Contracts for the verif build tag: comment-only, read by /verif/engine (govc).
+package api
+
+//@ # ---- C03 (purge route): the question every purger is handed carries the CANONICAL spelling of the path's name - the
+//@ # spelling the cache keyed the entry under when it arrived as wire labels - with the requested type and class IN
+//@ func (*API).purge
+//@   abstract
+//@   nosafety all pre
+//@   assert at call (middleware.Purger).Purge#1: lastret("internal/dnsutil.CanonicalPresentation", 1) && arg1.Name == lastret("internal/dnsutil.CanonicalPresentation") && arg1.Qtype == qtype && arg1.Qclass == dns.ClassINET
+//@   assert at call internal/dnsutil.CanonicalPresentation#1: arg0 == lastret("(*api.Context).Param#2")
